@@ -24,7 +24,7 @@ for n in sorted(os.listdir(os.path.join(wt, "seed"))):
     if not os.path.exists(patch):
         continue
     git("checkout", "--", "han")
-    meta = {"property": pid, "seed": n, "source": "independent sub-agent given only the property text and a scratch worktree"}
+    meta = {"property": pid, "seed": os.environ.get("SEED_PREFIX", "") + n, "source": "independent sub-agent given only the property text and a scratch worktree"}
     r0 = sh(f"cd {wt} && timeout 120 /venv/bin/python seed/{n}/demo.py", env=env)
     meta["demo_on_clean_head_exit"] = r0.returncode
     a = git("apply", patch)
@@ -44,7 +44,7 @@ for n in sorted(os.listdir(os.path.join(wt, "seed"))):
             viol = [l for l in c.stdout.splitlines() if l.startswith("violation:")]
             meta["checks"][cid] = {"tier": "quick", "seed": os.environ.get("VERIF_SEED", "1"), "exit": c.returncode, "wall_s": round(time.time() - t0, 1), "first_violation": viol[0][:500] if viol else None}
     git("checkout", "--", "han")
-    dest = os.path.join(HERE, "seeded", f"{pid}-{n}")
+    dest = os.path.join(HERE, "seeded", f"{pid}-{os.environ.get('SEED_PREFIX', '')}{n}")
     os.makedirs(dest, exist_ok=True)
     shutil.copy(patch, os.path.join(dest, "patch.diff"))
     shutil.copy(os.path.join(d, "demo.py"), os.path.join(dest, "demo.py"))
